@@ -1,6 +1,7 @@
 package props
 
 import (
+	"crypto/tls"
 	"fmt"
 	"net"
 	"runtime"
@@ -21,6 +22,8 @@ type c17Case struct {
 	Form       string `json:"form"` // address template with %d for the port, or a fixed malformed string
 	Valid      bool   `json:"valid"`
 	PortInUse  bool   `json:"port_in_use"`
+	PortAdd    int    `json:"port_add"` // added to the port number in the address text (65536: out of range)
+	TLS        bool   `json:"tls"`      // Run is given WithTLSConfig
 	Pollers    int    `json:"pollers"`
 	GoMaxProcs int    `json:"gomaxprocs"`
 	SpinBefore int    `json:"spin_before"` // scheduler yields between starting the pollers and calling Run
@@ -61,7 +64,18 @@ func c17Exec(c c17Case, st *lab.Stats) *lab.Fail {
 	}
 	addr := c.Form
 	if strings.Contains(addr, "%d") {
-		addr = fmt.Sprintf(addr, port)
+		addr = fmt.Sprintf(addr, port+c.PortAdd)
+	}
+	var runOpts []gldap.Option
+	var clientTLS *tls.Config
+	if c.TLS {
+		pki, _, err := lab.SharedPKI()
+		if err != nil {
+			st.Inconclusive(err.Error())
+			return nil
+		}
+		runOpts = append(runOpts, gldap.WithTLSConfig(pki.ServerTLS()))
+		clientTLS = pki.ClientTLS(false)
 	}
 	mux, _ := gldap.NewMux()
 	var served int32
@@ -76,7 +90,7 @@ func c17Exec(c c17Case, st *lab.Stats) *lab.Fail {
 	}
 	_ = s.Router(mux)
 	nt := !c.Valid || c.PortInUse || c.Pollers > 0
-	st.Case(nt, lab.JSONKey(c), "form="+c.Form, fmt.Sprintf("valid=%v", c.Valid), fmt.Sprintf("inuse=%v", c.PortInUse), fmt.Sprintf("pollers=%d", c.Pollers))
+	st.Case(nt, lab.JSONKey(c), "form="+c.Form, fmt.Sprintf("valid=%v", c.Valid), fmt.Sprintf("inuse=%v", c.PortInUse), fmt.Sprintf("pollers=%d", c.Pollers), fmt.Sprintf("tls=%v", c.TLS), fmt.Sprintf("portadd=%d", c.PortAdd))
 	st.Sample(c)
 	if s.Ready() {
 		return lab.Failf("ready-before-run", "Ready() is true before Run was called")
@@ -97,7 +111,13 @@ func c17Exec(c c17Case, st *lab.Stats) *lab.Fail {
 				target = net.JoinHostPort("::1", p)
 			}
 		}
-		cl, err := lab.Dial(target)
+		var cl *lab.Client
+		var err error
+		if clientTLS != nil {
+			cl, err = lab.DialTLS(target, clientTLS)
+		} else {
+			cl, err = lab.Dial(target)
+		}
 		if err != nil {
 			return fmt.Sprintf("Ready() == true but dialing %s fails: %v", target, err)
 		}
@@ -133,7 +153,7 @@ func c17Exec(c c17Case, st *lab.Stats) *lab.Fail {
 		runtime.Gosched()
 	}
 	runErr := make(chan error, 1)
-	go func() { runErr <- s.Run(addr) }()
+	go func() { runErr <- s.Run(addr, runOpts...) }()
 	var rerr error
 	returned := false
 	// wait until Run has returned or the server reports Ready (hostname forms
@@ -210,7 +230,7 @@ func c17Exec(c c17Case, st *lab.Stats) *lab.Fail {
 func TestC17(t *testing.T) {
 	lab.Prop[c17Case]{
 		ID: "C17", Part: "ready",
-		Rule: "rapid: listen addresses valid (127.0.0.1, localhost, empty host, [::1], bare ::1, 0.0.0.0, [::]), malformed (15 forms: empty, no port, empty port, unbalanced brackets, bad IPv4/IPv6, text) and valid-but-port-already-bound (held by the harness on both loopback families); 0..8 poller goroutines spin on Ready() from BEFORE Run is called and the first one that sees true dials immediately; GOMAXPROCS 1/2/4/16; oracle = Ready false before Run; Ready true => dial succeeds and a bind is served; Run error => no poller ever saw true and Ready is false afterwards; non-trivial = failing address or pollers spinning before Run; distinct by hash",
+		Rule: "rapid: listen addresses valid (127.0.0.1, localhost, empty host, [::1], bare ::1, 0.0.0.0, [::]), malformed (15 forms: empty, no port, empty port, unbalanced brackets, bad IPv4/IPv6, text), valid forms with an out-of-range port number (port +- 65536...) and valid-but-port-already-bound, each with and without WithTLSConfig (held by the harness on both loopback families); 0..8 poller goroutines spin on Ready() from BEFORE Run is called and the first one that sees true dials immediately; GOMAXPROCS 1/2/4/16; oracle = Ready false before Run; Ready true => dial succeeds and a bind is served; Run error => no poller ever saw true and Ready is false afterwards; non-trivial = failing address or pollers spinning before Run; distinct by hash",
 		Gen: func(t *rapid.T) c17Case {
 			c := c17Case{
 				Pollers:    rapid.SampledFrom([]int{0, 1, 2, 4, 8}).Draw(t, "pollers"),
@@ -218,9 +238,14 @@ func TestC17(t *testing.T) {
 				SpinBefore: rapid.SampledFrom([]int{0, 1, 3, 10}).Draw(t, "spin"),
 			}
 			// malformed forms cost ~1 s each (resolver timeout in validateAddrPort): lower weight
-			switch rapid.IntRange(0, 7).Draw(t, "class") {
+			c.TLS = rapid.IntRange(0, 2).Draw(t, "tls") == 0
+			switch rapid.IntRange(0, 8).Draw(t, "class") {
 			case 0:
 				c.Form = rapid.SampledFrom(c17Malformed).Draw(t, "malformed")
+			case 8:
+				// a valid form whose port number is out of range: must be rejected, not wrapped
+				c.Form = rapid.SampledFrom(c17Valid).Draw(t, "validform")
+				c.PortAdd = rapid.SampledFrom([]int{65536, 131072, -65536, 1000000}).Draw(t, "portadd")
 			case 1, 2, 3:
 				c.Form, c.Valid, c.PortInUse = rapid.SampledFrom(c17Valid).Draw(t, "validform"), true, true
 			default:
